@@ -199,7 +199,7 @@ def size_matches(size, ptr):
 def align_contract(rep):
     """align(x,a) is a multiple of a: its polynomial (with rem = x - a*div) has a as a factor of every term"""
     from .ir.poly import PolyInterp
-    wd = os.path.join(C.BUILD, "work", "C01")
+    wd = C.workpath("C01")
     src = os.path.join(wd, "c01_align.cpp")
     open(src, "w").write('#include "vf_common.hpp"\nextern "C" std::size_t w_align(std::size_t x, std::size_t a){ return boost::gil::align(x, a); }\n')
     bc = C.emit_ir(src, src[:-4] + ".bc")
@@ -224,7 +224,7 @@ def align_contract(rep):
 
 def footprint(rep):
     """bytes touched by channel access of packed/bit-aligned pixels vs the bytes the pixel's own bits span"""
-    wd = os.path.join(C.BUILD, "work", "C01")
+    wd = C.workpath("C01")
     BA = [("bits7_img", (2, 2, 3)), ("bits121_img", (1, 2, 1)), ("bits565_img", (5, 6, 5)), ("bits233_img", (2, 3, 3)), ("bits1_img", (1,))]
     L = ['#include "vf_common.hpp"', 'using namespace vf;', 'extern "C" {']
     obl = []
